@@ -39,7 +39,7 @@ class C08(Prop):
             "(scenario, allocator, k) with k >= 2 (the suite only ever fails k = 1), distinct by construction per distinct scenario")
     ASSUMPTIONS = ["the fault window is exactly the call under test; set-up, comparison prints and tear-down run unfaulted",
                    "only core API calls named by the property; Utils functions are outside its statement"]
-    REQUIRED_CLASSES = ["op:" + o for o in OPS] + ["k>=2", "custom_hooks", "default_allocator"]
+    REQUIRED_CLASSES = ["op:" + o for o in OPS] + ["k>=2", "custom_hooks", "default_allocator", "print_several_KB"]
 
     def budget(self, tier):
         return {"workers": 14, "examples": 1200 if tier == "quick" else 9000}
@@ -82,7 +82,20 @@ class C08(Prop):
             pre.args["jv"] = jt
         elif op == "print":
             pre.args["tree"] = tree(jv)
-            if c % 5 == 4:
+            if c % 7 == 3:
+                # a text of several KB: the print buffer grows through several doublings (256 -> 512 -> ... -> 16384), each a request of its own
+                holder = lib.cJSON_CreateArray()
+                n = [600, 2100, 4200, 9000][a % 4]
+                lib.cJSON_AddItemToArray(holder, lib.cJSON_CreateString(b"p" * (n // 2)))
+                lib.cJSON_AddItemToArray(holder, pre.args["tree"])
+                lib.cJSON_AddItemToArray(holder, lib.cJSON_CreateString((b"q\"\n" * n)[:n // 2]))
+                for i in range(b % 40):
+                    lib.cJSON_AddItemToArray(holder, lib.cJSON_CreateNumber(i * 1000.5))
+                pre.roots.remove(pre.args["tree"])
+                pre.roots.append(holder)
+                pre.args["tree"] = holder
+                pre.args["big"] = True
+            elif c % 5 == 4:
                 # printable oddities: a string reference to nothing and a key-less member print as ""
                 holder = lib.cJSON_CreateObject()
                 lib.cJSON_AddItemToObject(holder, b"padding", lib.cJSON_CreateString(b"x" * (a % 300)))
@@ -311,6 +324,8 @@ class C08(Prop):
                 stats.cls("custom_hooks" if mode == LG_BOTH else "default_allocator")
                 # fault-free run
                 pre = self.setup(lib, case)
+                if pre.args.get("big"):
+                    stats.cls("print_several_KB")
                 lib.ledger_arm(0)
                 res0, failed0 = self.call(lib, case, pre)
                 n = int(lib.ledger_requests())
